@@ -265,10 +265,10 @@ def run(tier):
                     continue
             na, nb_ = norm(a), norm(b)
             if len(orc) > 1 and len(usr) == 2 and a["err"]["error"] != b["err"]["error"]:
-                bad("which-user-error-when-two-actions-fail",
-                    {"what": "two fallible actions fail on this input; the plain parser returns the error of the one that comes first in the input, the parser with #[inline] runs the "
-                             "inlined action later (just before the action of the enclosing production) and returns the other error", "grammar": g.name,
-                     "inlined_grammar_text": gi.render(), "start": st, "tokens": w, "failing_actions": [list(o) for o in orc], "plain": na, "inlined": nb_})
+                # several actions fail on this input: the statement itself says that inlined actions run
+                # later (just before the action of the enclosing production), so which of the failures is
+                # reported first may differ; only "both fail" is demanded (DESIGN.md section 4, C14)
+                dist["several_failing_actions_different_error"] = dist.get("several_failing_actions_different_error", 0) + 1
                 continue
             if a["kind"] == "ok" and b["kind"] == "ok" and na == nb_:
                 wa, wb = expected_acts(a["tree"], set()), expected_acts(b["tree"], sub)
